@@ -7,6 +7,7 @@ import (
 	"fmt"
 	"os"
 	"sort"
+	"time"
 
 	"github.com/transparency-dev/witness/verifmc/checks"
 	"github.com/transparency-dev/witness/verifmc/wh"
@@ -62,6 +63,16 @@ func main() {
 		if len(os.Args) < 3 {
 			usage()
 		}
+		// A worker never outlives the check that started it (a worker may be
+		// spinning inside code under test when its parent is killed).
+		go func(ppid int) {
+			for {
+				time.Sleep(500 * time.Millisecond)
+				if os.Getppid() != ppid {
+					os.Exit(3)
+				}
+			}
+		}(os.Getppid())
 		w, ok := checks.Workers[os.Args[2]]
 		if !ok {
 			fmt.Printf("INTERNAL-ERROR: no worker %q\n", os.Args[2])
